@@ -16,6 +16,7 @@ pub tracked struct DW {
     pub ghost registered: bool,               // the region is in the Regions table (id -> slot)
     pub ghost refs: nat,                      // Arc strong count of the region handle
     pub ghost slot: (usize, usize, usize),    // (start, len, reserved) as last written to the region's slot of the metadata file
+    pub ghost dlo: usize, pub ghost dhi: usize,   // the region's dirty bounds (region-relative byte range the next flush will sync; empty when dlo >= dhi)
 }
 
 impl DW {
@@ -73,8 +74,17 @@ impl Region {
     // Arc::strong_count(self.arc())
     #[verifier::external_body]
     pub fn strong_count(&self, Tracked(w): Tracked<&mut DW>) -> (r: usize) ensures *final(w) == *old(w), r == old(w).refs { unimplemented!() }
-    #[verifier::external_body] pub fn mark_dirty_abs(&self, region_start: usize, abs_start: usize, len: usize) requires abs_start >= region_start { unimplemented!() }
-    #[verifier::external_body] pub fn mark_dirty(&self, offset: usize, len: usize) requires offset + len <= usize::MAX { unimplemented!() }
+    // Region::mark_dirty / mark_dirty_abs (U22): the recorded dirty range grows to include [offset, offset + len)
+    #[verifier::external_body] pub fn mark_dirty_abs(&self, region_start: usize, abs_start: usize, len: usize, Tracked(w): Tracked<&mut DW>)
+        requires abs_start >= region_start, abs_start - region_start + len <= usize::MAX
+        ensures *final(w) == (DW { dlo: final(w).dlo, dhi: final(w).dhi, ..*old(w) }),
+                final(w).dlo <= old(w).dlo, final(w).dlo <= abs_start - region_start, final(w).dhi >= old(w).dhi, final(w).dhi >= abs_start - region_start + len
+    { unimplemented!() }
+    #[verifier::external_body] pub fn mark_dirty(&self, offset: usize, len: usize, Tracked(w): Tracked<&mut DW>)
+        requires offset + len <= usize::MAX
+        ensures *final(w) == (DW { dlo: final(w).dlo, dhi: final(w).dhi, ..*old(w) }),
+                final(w).dlo <= old(w).dlo, final(w).dlo <= offset, final(w).dhi >= old(w).dhi, final(w).dhi >= offset + len
+    { unimplemented!() }
 }
 impl MetaR {
     pub uninterp spec fn v(&self) -> (usize, usize, usize);
